@@ -703,6 +703,20 @@ theorem chain_epoch_block_rewards_sum {s s' : ChainSt} {bs : List (Nat × Nat)}
   exact ⟨f, hf, by rw [hsum, ← hR]⟩
 
 
+/-- `chain_epoch_secondary_sum`: along ANY chain of the whole-chain view, for every epoch reached —
+whatever its length — the per-block secondary issuance (`S / L`, one more shannon for the first
+`S % L` blocks) sums over the whole epoch to exactly the consensus' `secondary_epoch_reward` `S`. -/
+theorem chain_epoch_secondary_sum {s s' : ChainSt} {bs : List (Nat × Nat)} (S : Nat)
+    (inv : ChainInv s) (hr : RewardInv s) (hn : s.cur.number + bs.length < 2 ^ 24)
+    (hinit : s.P.initial < U64) (hh : s.P.halving ≠ 0) (h : chainRun s bs = some s')
+    (hstart : s'.cur.start + s'.cur.length ≤ U64) (hS : S + 1 < U64) :
+    ∃ f : Nat → Nat, (∀ i, secondaryBlockIssuance s'.cur (s'.cur.start + i) S = some (f i)) ∧
+      ((List.range s'.cur.length).map f).sum = S := by
+  obtain ⟨⟨i1, i2, _⟩, _, _⟩ := chain_rewards_on_schedule bs s s' inv hr hn hinit hh h
+  have hL : s'.cur.length ≠ 0 := by omega
+  have hdiv : S / s'.cur.length ≤ S := Nat.div_le_self _ _
+  exact secondary_issuance_sums_to_epoch_issuance s'.cur S hL hstart (by omega)
+
 /-! ## the numext `U256` layer and the compact encoding on its canonical range
 
 `Model/EpochU256.lean` states what each `U256` operation used by the difficulty / epoch code computes
